@@ -508,6 +508,13 @@ def bounded(sess: Session):
     cases, fails = G.sweep('similarity', n)
     sess.add_bounded('wn.similarity.path/wup/lch + taxonomy', f'every labelled digraph with <= {n} nodes x all ordered '
                      f'pairs x simulate_root', cases, 'small-scope enumeration on the real functions', not fails)
+    if sess.tier == 'thorough':
+        for nn in (5, 6):
+            c2, f2 = G.sample('similarity', nn, 2000, seed=sess.seed)
+            sess.add_bounded('wn.similarity.* (larger graphs)', f'{c2} random digraphs with {nn} nodes (seed '
+                             f'{sess.seed}; half of them acyclic) x all ordered pairs x simulate_root', c2,
+                             'random sampling on the real functions', not f2)
+            fails = list(fails) + list(f2)
     seen = set()
     for clause, witness in fails:
         if clause not in seen:
